@@ -1,11 +1,11 @@
 SPECIFICATION Spec
 CONSTANTS
-  Lens <- LensAll
+  Lens <- LensLongThorough
   Modes <- ModesAll
-  KW = 3
-  KR = 3
-  WPats <- NoPats
-  RPats <- NoPats
+  KW = 0
+  KR = 0
+  WPats <- WPatsLong
+  RPats <- RPatsLong
   Chunk = 4096
   SendMech = "repaired"
   RecvMech = "repaired"
